@@ -57,7 +57,8 @@ theorem notifyEvent_workers (j : Job) (c c' : Ctl) (ev : Event) (h : notifyEvent
         have e1 := completeInputs_dispatched _ _ _ _ _ hc2
         have e2 := completeInputs_idle _ _ _ _ _ hc2
         have e3 := completeInputs_ongoing _ _ _ _ _ hc2
-        simp only [considerComputable_dispatched, considerFetch_dispatched, markAvailable_dispatched,
+        simp only [markPublished_dispatched, markPublished_idle, markPublished_ongoing,
+          considerComputable_dispatched, considerFetch_dispatched, markAvailable_dispatched,
           considerComputable_idle, considerFetch_idle, markAvailable_idle,
           considerComputable_ongoing, considerFetch_ongoing, markAvailable_ongoing] at e1 e2 e3
         split at h
